@@ -43,13 +43,25 @@ def r1(ctx, retsets):
     ln = vf.expr(fn, p.args[2])
     dst_ok = dst[0] == "ptradd" and dst[1] == ("arg", 1) and dst[2] == ("c", HDR)
     len_ok = ln[0] == "bin" and ln[1] == "sub" and is_hlen(ln[2]) and ln[3] == ("c", HDR)
-    G = es.Guards(fn, p)
-    lo = any(b_[0] == "c" and b_[1] >= HDR for (r_, b_, a_) in [(r, a, b) for (r, a, b) in G.rel if r == "le" and is_hlen(b)]) or \
-        any(a_[0] == "c" and a_[1] >= HDR - 1 for (r, a_, b_) in G.rel if r == "lt" and is_hlen(b_))
-    hi = any(b_[0] == "c" and b_[1] <= MAXPDU for (r, a_, b_) in G.rel if r == "le" and is_hlen(a_)) or \
-        any(b_[0] == "c" and b_[1] <= MAXPDU + 1 for (r, a_, b_) in G.rel if r == "lt" and is_hlen(a_))
+    # evaluated per length value (wherever the two bounds are tested - in line, in a helper that hands a verdict back): the payload
+    # receive is reached for no length below the header size and for none above the buffer
+    reached = {}
+    for hl in (0, 1, 7, HDR, HDR + 1, 100, MAXPDU, MAXPDU + 1, 65535, 2 ** 31, 2 ** 32 - 1):
+        def values_l(pe, hl=hl):
+            return hl if vf.last_field(pe) == "pdu_header.len" and vf.root_of(pe)[0] == "alloca" else None
+
+        def cl_l(inst, E, st, hl=hl):
+            if inst is h:
+                return [([], {inst.ref: flow.av_in(0)})]
+            if inst is p:
+                reached[hl] = True
+                return flow.KILL
+            return None
+        es.count_effects(fn, pdb, cl_l, retsets, values=values_l, cap=64)
+    lo = not any(reached.get(x) for x in (0, 1, 7))
+    hi = not any(reached.get(x) for x in (MAXPDU + 1, 65535, 2 ** 31, 2 ** 32 - 1)) and bool(reached.get(100)) and bool(reached.get(MAXPDU))
     ctx.check(dst_ok and len_ok and lo and hi, "C04.R1", "payload-receive-bounded", p.loc(),
-              "destination buffer+8: %s, length header.len-8: %s, dominated by header.len >= 8: %s and header.len <= 3248: %s" % (dst_ok, len_ok, lo, hi),
+              "destination buffer+8: %s, length header.len-8: %s, not reached for header.len < 8: %s, reached for 100 and 3248 but not for larger values: %s" % (dst_ok, len_ok, lo, hi),
               key="C04.R1:payload")
     # the header copy the bounds are checked on is the one just received
     cps = [c for c in fn.calls() if (c.callee or "").startswith("llvm.memcpy") and vf.root_of(vf.expr(fn, c.args[0]))[0] == "alloca"
@@ -768,17 +780,16 @@ def r9(ctx, retsets):
         fn = pdb.fn(fname)
         ctx.touch(fn)
         IND, SIZE, ARY = ("arg", 4), ("arg", 5), ("arg", 3)
-        cmpi = [i for i in fn.all_insts() if i.op == "icmp" and vf.expr(fn, i["a"]) == ("load", IND) and vf.expr(fn, i["b"]) == ("load", SIZE)]
-        if len(cmpi) != 1:
+        cmpi = [i for i in fn.all_insts() if i.op == "icmp" and {vf.expr(fn, i["a"]), vf.expr(fn, i["b"])} == {("load", IND), ("load", SIZE)}]
+        if not cmpi:
             raise AnalysisBroken("%s: capacity test not found" % fname)
-        ci = cmpi[0]
-        ctx.check(ci["pred"] == "uge", "C04.R9", "%s:capacity-test" % fname, ci.loc(), "grow when index %s capacity" % ci["pred"], key="C04.R9:%s:test" % fname)
-        for full in (True, False):
+        # on values (index, capacity) - whichever way the test is written: (5,5) and (6,5) are full, (4,5) and (0,5) are not
+        for full, cellv in ((True, (5, 5)), (True, (6, 5)), (False, (4, 5)), (False, (0, 5))):
             for alloc_ok in (True, False):
-                def oracle(inst, pred, a, b, E, full=full):
-                    if inst.id == ci.id:
-                        return full
-                    return None
+                oracle = None
+
+                def values(pe, cellv=cellv):
+                    return cellv[0] if pe == IND else (cellv[1] if pe == SIZE else None)
 
                 def classify(inst, E, st, alloc_ok=alloc_ok):
                     if inst.op == "call" and inst.callee == "lrtr_realloc":
@@ -795,6 +806,8 @@ def r9(ctx, retsets):
                             v = vf.expr(fn, inst["val"])
                             return ["idx+1" if v == ("bin", "add", ("load", IND), ("c", 1)) else "idx?"]
                         if pe == ARY:
+                            if E.path_expr(inst["val"]) == ("load", ARY):
+                                return None       # the array pointer written back unchanged (a helper that hands the - possibly moved - array back)
                             return ["ary<-new" if flow.av_single(E.val(inst["val"])) != 0 else "ary<-NULL"]
                     if inst.op == "call" and inst.callee == "rtr_get_pdu_type" and fname == "rtr_store_prefix_pdu":
                         # precondition (asserted, discharged under R8): the PDU is an IPv4 or IPv6 prefix PDU
@@ -811,7 +824,7 @@ def r9(ctx, retsets):
                     if inst.op == "call" and inst.callee in ("lrtr_free", "free"):
                         return ["free"]       # the store never releases anything: the caller owns (and frees) the array
                     return None
-                outs, fl = es.count_effects(fn, pdb, classify, retsets, oracle=oracle)
+                outs, fl = es.count_effects(fn, pdb, classify, retsets, values=values)
                 if not full and not alloc_ok:
                     continue
                 if not full:
@@ -821,8 +834,8 @@ def r9(ctx, retsets):
                 else:
                     exp, ret = {"cap+": 1, "grow": 1, "report": 1}, -1
                 found = [({k: v for k, v in o["counts"].items()}, flow.av_single(o["ret"])) for o in outs]
-                ctx.check(bool(outs) and all(c == exp and r == ret for c, r in found), "C04.R9", "%s[full=%s,alloc=%s]" % (fname, full, alloc_ok),
-                          "%s:%d" % (fn.relfile, fn.line), "effects %s, expected (%s, %d)" % (found, exp, ret), key="C04.R9:%s:%s:%s" % (fname, full, alloc_ok))
+                ctx.check(bool(outs) and all(c == exp and r == ret for c, r in found), "C04.R9", "%s[full=%s,alloc=%s]" % (fname, full, alloc_ok) + ("" if cellv in ((5, 5), (4, 5)) else "(index %d, capacity %d)" % cellv),
+                          "%s:%d" % (fn.relfile, fn.line), "index %d, capacity %d: effects %s, expected (%s, %d)" % (cellv[0], cellv[1], found, exp, ret), key="C04.R9:%s:%s:%s" % (fname, full, alloc_ok))
     # element size at the call sites = size of the array's element type
     f = pdb.fn(RECV)
     n = 0
